@@ -1171,3 +1171,66 @@ Proof.
     + rewrite Hmws, app_length, firstn_length. cbn [length]. lia.
   - split; auto. apply entry_R1; auto.
 Qed.
+
+(* ------------------------------------------------------------------ the CALLGLOBAL super-instruction
+   program.rs rewrites  PUSH g ; FUNC n  into  CALLGLOBAL g ; FUNC n  (and the TAILCALL pair into
+   CALLGLOBALTAIL g ; TAILCALL n).  One step of the fused form does what the two steps of the original
+   pair do: same error, or the same next state up to the instruction array [C] vs [C'] it is fetched
+   from / returns to. *)
+Definition with_code (C' : list instr) (s : vmstate) : vmstate :=
+  mkVM C' (ip s) (stack s) (frames s) (globals s).
+
+Lemma callglobal_fusion : forall limit C C' pc g n st fs MG,
+  nth_error C pc = Some (PUSH g) -> nth_error C (S pc) = Some (FUNC n) ->
+  nth_error C' pc = Some (CALLGLOBAL g) -> nth_error C' (S pc) = Some (FUNC n) ->
+  match vm_step limit (mkVM C pc st fs MG) with
+  | SErr k => vm_step limit (mkVM C' pc st fs MG) = SErr k
+  | SNext s1 =>
+      match vm_step limit s1, vm_step limit (mkVM C' pc st fs MG) with
+      | SErr k, r => r = SErr k
+      | SStuck, r => r = SStuck
+      | SNext a, SNext b =>
+          (* a primitive: execution continues after the pair in the same array *)
+          (code a = C /\ b = with_code C' a) \/
+          (* a closure: a frame was pushed whose return address is after the pair *)
+          (exists fr, frames a = fr :: fs /\ f_ret_code fr = C /\
+                      b = mkVM (code a) (ip a) (stack a) (mkFrame (f_sp fr) (f_fn fr) (f_ret_ip fr) C' :: fs) (globals a))
+      | _, _ => False
+      end
+  | _ => False
+  end.
+Proof.
+  intros limit C C' pc g n st fs MG H1 H2 H3 H4.
+  unfold vm_step at 1. cbn [code ip stack frames globals]. rewrite H1.
+  destruct (Core.lookup g MG) as [f|] eqn:Hg.
+  - unfold next_with. cbn [code ip stack frames globals].
+    unfold vm_step at 1. cbn [code ip stack frames globals]. rewrite H2, unsnoc_app.
+    unfold vm_step. cbn [code ip stack frames globals]. rewrite H3, H4, Hg.
+    destruct f; cbn [do_call]; auto.
+    + (* primitive *)
+      unfold call_prim. cbn [code ip stack frames globals].
+      destruct (Nat.leb n (length st)); auto.
+      destruct (prim_sem p _); auto; try (left; split; auto; fail).
+    + (* closure *)
+      destruct (adjust_arity arity rest n st) as [[st'|]|k]; auto.
+      destruct (Nat.leb arity (length st')); auto.
+      cbn [code ip stack frames globals].
+      destruct (Nat.leb limit (S (length fs))); auto;
+        try (right; eexists; split; [reflexivity|]; split; reflexivity).
+  - unfold vm_step. cbn [code ip stack frames globals]. rewrite H3, H4, Hg. auto.
+Qed.
+
+(* the tail pair with a closure callee: the frame is reused, so the two forms reach the SAME state *)
+Lemma callglobaltail_fusion : forall limit C C' pc g n st fs MG arity rest body caps,
+  nth_error C pc = Some (PUSH g) -> nth_error C (S pc) = Some (TAILCALL n) ->
+  nth_error C' pc = Some (CALLGLOBALTAIL g) -> nth_error C' (S pc) = Some (TAILCALL n) ->
+  Core.lookup g MG = Some (MClo arity rest body caps) ->
+  exists s1, vm_step limit (mkVM C pc st fs MG) = SNext s1 /\
+             vm_step limit s1 = vm_step limit (mkVM C' pc st fs MG).
+Proof.
+  intros limit C C' pc g n st fs MG arity rest body caps H1 H2 H3 H4 Hg.
+  eexists. split.
+  - unfold vm_step. cbn [code ip stack frames globals]. rewrite H1, Hg. reflexivity.
+  - unfold vm_step. cbn [code ip stack frames globals]. rewrite H2, H3, H4, Hg, unsnoc_app.
+    cbn [do_tail_call]. cbn [code ip stack frames globals]. reflexivity.
+Qed.
